@@ -69,7 +69,7 @@ fn model(b: &[u8]) -> Want {
     Want::Found(i, l)
 }
 
-fn run(ptr: *const u8, len: usize) -> Transcript {
+pub fn run(ptr: *const u8, len: usize) -> Transcript {
     let mut rec = Rec::new(ptr as usize);
     let slice = unsafe { core::slice::from_raw_parts(ptr, len) };
     match mb2_model::panics::catch(|| Multiboot2Header::find_header(slice)) {
@@ -210,5 +210,6 @@ pub fn subs() -> Vec<Box<dyn Sub>> {
         enumerate: Some(enumerate),
         enum_exhaustive: false,
         eval,
-    })]
+    }),
+    Box::new(super::fuzzsub::FuzzSub { target: "fuzz_find", name: "fuzz-find", runs: 4_000_000, max_len: 12000 })]
 }
